@@ -14,11 +14,14 @@ CONSTANTS CLimit, CLimitPerAccount, CLifetime, CIdentityCheck,
           StaleEval,  \* TRUE: Add may have evaluated against the previous head
           Blockable,  \* accounts that a blocklist fetch may add
           Record, MaxSteps,
+          SplitAdd,   \* "off": Add is one step | "inlock": lookup-free prefix, then the critical section with its duplicate
+                      \* test | "outside": the duplicate test happens in the prefix, the critical section inserts blindly
           Variant,    \* "base" | "fork": which real chain TxDef / Heads are the facts of
           Sample      \* TRUE (simulation only): one random candidate per operation kind, so that wash steps get their share
 
-VARIABLES hidx, hist
-mcvars == <<vars, hidx, hist>>
+VARIABLES hidx, hist,
+          padd       \* submissions that passed the lock-free prefix and wait for the map: set of [k, h, src, exec]
+mcvars == <<vars, hidx, hist, padd>>
 
 Fresh(h) == <<h, Cardinality({o \in DOMAIN objs : o[1] = h}) + 1>>
 Now == <<Cardinality(DOMAIN objs)>>
@@ -37,11 +40,24 @@ MCInit ==
   /\ cfg = [limit |-> CLimit, lpa |-> CLimitPerAccount, lifetime |-> CLifetime, identity |-> CIdentityCheck]
   /\ txs = TxDef /\ objs = << >> /\ byHash = << >> /\ byID = << >> /\ quota = << >> /\ cost = << >>
   /\ pub = <<>> /\ head = Heads[1] /\ blocked = {} /\ tick = [seen |-> Heads[1].id, added |-> FALSE]
-  /\ w = WIdle /\ lastDrop = NoDrop /\ hidx = 1 /\ hist = <<>>
+  /\ w = WIdle /\ lastDrop = NoDrop /\ hidx = 1 /\ hist = <<>> /\ padd = {}
 
 EvalHeads == IF StaleEval /\ hidx > 1 THEN {Heads[hidx], Heads[hidx - 1]} ELSE {Heads[hidx]}
 
-MCNext ==
+\* Add at the grain of the map: the prefix of TxPool.add ends before txObjectMap.Add's critical section; several
+\* submissions (of the same tx, too) may be between the two
+SubmitPrefix(k, h, src) ==
+  LET p == AddPrefix(h, src, FALSE, head) IN
+  /\ SplitAdd # "off" /\ p.v = "go" /\ \A x \in padd : x.k # k
+  /\ padd' = padd \cup {[k |-> k, h |-> h, src |-> src, exec |-> p.exec]}
+  /\ UNCHANGED <<vars, hidx>> /\ Log([a |-> "SubmitPrefix", h |-> h])
+SubmitInsert(x) ==
+  /\ SplitAdd # "off" /\ CanCreate(x.h)
+  /\ AddLockedWith(Fresh(x.h), x.h, x.src, Now, x.exec, head, PrioOf(txs[x.h], head), SplitAdd = "inlock")
+  /\ padd' = padd \ {x}
+  /\ UNCHANGED <<cfg, txs, pub, head, blocked, tick, w, lastDrop, hidx>> /\ Log([a |-> "SubmitInsert", h |-> x.h])
+
+MCNext0 ==
   /\ (Record => Len(hist) < MaxSteps)
   /\ \/ \E h \in Pick(DOMAIN TxDef), src \in Pick(Sources), strict \in Pick(Stricts), hd \in EvalHeads :
           /\ (strict => src = "remote")           \* StrictlyAdd is a remote submission
@@ -70,18 +86,26 @@ MCNext ==
         /\ WashPublish([x \in 1..Len(w.out) |-> objs[w.out[x]].prio]) /\ UNCHANGED hidx
         /\ Log([a |-> "WashPublish", out |-> [x \in 1..Len(w.out) |-> objs[w.out[x]].h]])
 
+MCNext ==
+  \/ \E k \in 1..2, h \in DOMAIN TxDef, src \in Sources : SubmitPrefix(k, h, src)
+  \/ \E x \in padd : SubmitInsert(x)
+  \/ MCNext0 /\ UNCHANGED padd
+
 MCSpec == MCInit /\ [][MCNext]_mcvars
 
 \* objects that are neither pooled nor held by the wash can never be referenced again: they are irrelevant
 Live(o) == o \in Pooled \/ (w.pc # "idle" /\ o \in SeqSet(w.snap))
 MCView == <<cfg, txs, [o \in DOMAIN objs |-> IF Live(o) THEN objs[o] ELSE 0], byHash, byID, quota, cost, pub, head, blocked,
-            tick, w, lastDrop, hidx>>
+            tick, w, lastDrop, hidx, padd>>
 
 \* behaviour export (simulation mode): print the history of every behaviour that reaches the bound or gets stuck
 ExportDone == Record /\ Len(hist) >= MaxSteps => PrintT(<<"BEH", ToJson(hist)>>)
 
 \* the regression config (IdentityCheck = FALSE, the code as it is): the counterexample's history is printed (F6)
 CostExactOrExport == CostExact \/ ~PrintT(<<"F6", ToJson(hist)>>)
+
+\* teeth config (SplitAdd = "outside", the duplicate test outside the critical section): the bookkeeping must break
+QuotaExactOrExport == QuotaExact \/ ~PrintT(<<"DUPCHECK", ToJson(hist)>>)
 
 \* a deliberately false invariant used once to see that the interesting paths are reachable (vacuity control)
 NeverPromoted == \A o \in DOMAIN objs : ~(objs[o].flag /\ objs[o].src = "fill")
@@ -129,6 +153,7 @@ Tx5 == Sub({"h1", "h2", "h3", "h4", "h5"})
 TxDrops == Sub({"h3", "h4", "h5"})
 TxSame == Sub({"h6", "h6b"})
 TxModes == Sub({"h2", "h6"})        \* both paid by b: affordable together at head 1, not at head 2
+Heads1 == SubSeq(UHeads, 1, 1)
 Heads2 == SubSeq(UHeads, 1, 2)
 Heads3 == UHeads
 TxTyped == Sub({"h1", "h7"})          \* a legacy and a dynamic-fee tx of the same account
